@@ -30,6 +30,9 @@ CLAIMED = {
  "C16": ("exploration", "4.9", "seeded operation histories (6-30 steps) over ten names with directory/file collisions, symref chains and loops, attached/detached HEAD, loose/packed/both refs and peeled tags, covering the whole RefsContainer surface incl. import_refs, interleaved with pack_refs(all|tags), re-opening, alternating between two handles on one directory, stale *.lock fault steps and invalid names, under coarse/zero-step virtual clocks (stat-validated packed-refs cache); after every step the observable state through the same, a fresh and the other handle is compared with a map model; the dict and reftable backends run the restricted sequences",
          "documented RefsContainer contract is the model; handles used strictly in turn; check_ref_format vs git check-ref-format and C git's listing are not decided; three recorded reftable divergences are normalised so the rest of each sequence is still checked",
          "deterministic simulation: simfs + virtual clock, stepwise refinement of operation histories against a reference map model, two handles as alternating processes, fault steps (stale locks)"),
+ "C17": ("exploration", "4.10", "every mutating system call of a checkout is resolved (real path of its parent at that instant) by a confinement monitor and must land inside the work tree; the control directory is snapshotted around each operation and may change only in the files checkout maintains; 1-3 adversarial trees (unsafe names, NTFS/HFS spellings, symlinks to absolute/parent/.git targets, names changing kind between trees, odd mode bits) are materialised in sequence by clone, checkout, checkout --force, reset --hard, build_index_from_tree and update_working_tree with protectNTFS/HFS on/off and optional injected errors mid-checkout; canaries outside the work tree and final mode bits are checked",
+         "work tree six levels deep so escapes stay inside the monitored sandbox; Windows/macOS semantics not simulated; stash apply and patch application not yet driven",
+         "deterministic simulation: simfs syscall monitor as a per-call invariant, generated tree sequences as histories, fault injection mid-checkout"),
 }
 NA = {
  "C01": "pure function of object field values / setter order: no schedule, clock, fault or I/O seam for a simulator to own (DESIGN.md section 5)",
